@@ -19,6 +19,7 @@ import (
 	"encoding/hex"
 	"fmt"
 	"math/big"
+	"os"
 	"sort"
 	"strings"
 	"testing"
@@ -653,6 +654,47 @@ func (w *pktWorld) send(src *pktChain, dstName string, amount int64, cs pktCallS
 	return s
 }
 
+// pktHighSeq: sequences around the int64 / uint64 boundaries (an honest sender cannot reach them by sending: the
+// packet contract lets the send counter grow by one)
+func pktIsHighSeq(seq uint64) bool { return seq >= 1<<62 }
+
+// plant writes the commitment of a well-formed base-token transfer packet src -> dst with the given sequence directly
+// into the source chain's store (Keeper.SetPacketCommitment); everything afterwards (client update, proof, receive,
+// replays, acknowledgement) is the real path. Returns nil if that key is already taken.
+func (w *pktWorld) plant(src, dst *pktChain, seq uint64, amount int64) *pktSent {
+	amt := make([]byte, 32)
+	big.NewInt(amount).FillBytes(amt)
+	td := packettypes.TransferData{Receiver: strings.ToLower(src.tc.SenderAddress.String()), Amount: amt,
+		Token: strings.ToLower(common.Address{}.String()), OriToken: ""}
+	tdBz, err := td.ABIPack()
+	if err != nil {
+		w.t.Fatal(err)
+	}
+	p := packettypes.Packet{SrcChain: src.name, DstChain: dst.name, Sequence: seq, Sender: strings.ToLower(src.tc.SenderAddress.String()),
+		TransferData: tdBz, CallData: []byte{}, CallbackAddress: common.Address{}.String(), FeeOption: 0}
+	bz, err := p.ABIPack()
+	if err != nil {
+		w.t.Fatal(err)
+	}
+	if _, taken := w.byEnc[string(bz)]; taken {
+		return nil
+	}
+	ctx := src.tc.GetContext()
+	if src.tc.App.XIBCKeeper.PacketKeeper.HasPacketCommitment(ctx, p.SrcChain, p.DstChain, seq) {
+		return nil
+	}
+	src.tc.App.XIBCKeeper.PacketKeeper.SetPacketCommitment(ctx, p.SrcChain, p.DstChain, seq, pktSha(bz))
+	id, dp, _ := w.defPacket(bz)
+	delta, sb, sa := src.observe()
+	w.stepOracle(sb, sa, "")
+	w.op(fmt.Sprintf("plant %s %s", hxs(src.name), id), "ok "+delta)
+	w.r.Count("plant")
+	s := &pktSent{bz: bz, p: dp, src: src, dst: dst, sentAt: src.tc.CurrentHeader.Height, mech: "planted"}
+	w.sent = append(w.sent, s)
+	w.byEnc[string(bz)] = s
+	return s
+}
+
 // updateClient delivers a genuine MsgUpdateClient for client `name` of chain c (signed by acct) with the last
 // header of the tracked chain.
 func (w *pktWorld) updateClient(c *pktChain, name string, acct int) bool {
@@ -806,6 +848,13 @@ func (w *pktWorld) recv(c *pktChain, packet, proof []byte, h clienttypes.Height,
 		hxs(signer), cb), fmt.Sprintf("%s %s S=%d", r, delta, st))
 	w.r.Count("recv." + tag + "." + r)
 	w.r.Count("recv." + r)
+	if pktIsHighSeq(p.Sequence) {
+		if ok {
+			w.r.Count("recv.accepted.high-sequence")
+		} else if strings.HasPrefix(tag, "replay") {
+			w.r.Count("recv.replay.high-sequence.err")
+		}
+	}
 	if pktHasUpper(p.SrcChain) || pktHasUpper(p.DstChain) {
 		if ok {
 			w.r.Count("recv.accepted.mixed-case-name")
@@ -877,6 +926,9 @@ func (w *pktWorld) ack(c *pktChain, packet, ackBz, proof []byte, h clienttypes.H
 	stBefore := c.ackStatus(p.DstChain, p.Sequence)
 	_, err := w.deliverMsgs(c, acct, msg)
 	ok := err == nil
+	if err != nil && os.Getenv("VERIF_PKT_DEBUG") != "" {
+		fmt.Fprintf(os.Stderr, "ACKERR line=%d tag=%s seq=%d: %v\n", len(w.hist), tag, p.Sequence, err)
+	}
 	delta, before, after := c.observe()
 	out := pktOutcome{ok: ok, delta: delta, before: before, after: after, semantic: sem, genu: gen}
 	truth := "0"
@@ -905,6 +957,9 @@ func (w *pktWorld) ack(c *pktChain, packet, ackBz, proof []byte, h clienttypes.H
 	w.r.Count("ack." + r)
 	if ok && (pktHasUpper(p.SrcChain) || pktHasUpper(p.DstChain)) {
 		w.r.Count("ack.accepted.mixed-case-name")
+	}
+	if pktIsHighSeq(p.Sequence) {
+		w.r.Count("ack.high-sequence." + r)
 	}
 	ck := hx(host.PacketCommitmentKey(p.SrcChain, p.DstChain, p.Sequence))
 	enc, _ := p.ABIPack()
